@@ -243,7 +243,7 @@ func (e *Engine) recordViolation(st *State, kind, label, pos string, model map[s
 	n := e.sh.violSeen[key]
 	e.sh.mu.Unlock()
 	atomic.AddInt64(&e.sh.nviol, 1)
-	if n > 1 {
+	if n > e.cfg.MaxViolations {
 		return nil
 	}
 	_, stack := e.curPos(st)
